@@ -1,4 +1,5 @@
 """C20 object lifecycle: plugin for ./check (see lib/vf/driver.py for the protocol)."""
+import re
 import zlib
 from vf.coqterm import N, B, L, T, C, Rec
 
@@ -20,13 +21,13 @@ THEOREMS = [
 ]
 HARNESSES = [
     dict(name="sup", pkg="pkg/supervisor", files=["harness/supervisor/zz_verif_c20_test.go"],
-         run="TestVerifC20", groups=["sup", "join"], timeout=600, share=0.7),
+         run="TestVerifC20", groups=["sup", "join", "backlog"], timeout=600, share=0.7),
     dict(name="tc", pkg="pkg/object/rawconfigtrafficcontroller", pkgname="rawconfigtrafficcontroller",
         files=["harness/rawconfigtrafficcontroller/zz_verif_c20_test.go"],
         run="TestVerifC20TC", groups=["tc", "apply"], timeout=600, share=0.3),
 ]
-GROUPS = {"sup": "check_sup", "tc": "check_tc", "join": "check_join", "apply": "check_tc"}
-EXPLAIN = {"sup": "explain_sup", "tc": "explain_tc", "join": "explain_join", "apply": "explain_tc"}
+GROUPS = {"sup": "check_sup", "tc": "check_tc", "join": "check_join", "apply": "check_tc", "backlog": "check_backlog"}
+EXPLAIN = {"sup": "explain_sup", "tc": "explain_tc", "join": "explain_join", "apply": "explain_tc", "backlog": "explain_backlog"}
 CASES = {"quick": 500, "thorough": 12000}
 RULE = ("cases: snapshot sequences over 1-4 names x 7 kinds (2 business controllers, 2 traffic gates, 2 pipeline-category kinds, "
         "1 unwatched system kind) x 3 contents (appear, change, unchanged, disappear, reappear, kind change inside and across "
@@ -77,7 +78,8 @@ def coq_header(kf_open):
             "Definition pinned : quirks := {| q_kind_change_as_update := %s |}.\n"
             "Definition check_sup := check_with pinned.\nDefinition check_tc := check_with pinned.\n"
             "Definition explain_sup := explain_with pinned.\nDefinition explain_tc := explain_with pinned.\n"
-            "Definition check_join := check_join_with pinned.\nDefinition explain_join := explain_join_with pinned.\n" % B(on))
+            "Definition check_join := check_join_with pinned.\nDefinition explain_join := explain_join_with pinned.\n"
+            "Definition check_backlog := check_backlog_with pinned.\nDefinition explain_backlog := explain_backlog_with pinned.\n" % B(on))
 
 
 def _spec(cats, kind, v):
@@ -109,13 +111,34 @@ def _rows(cats, rows):
     return L([T(_n(r[0]), _spec(cats, r[1], r[2])) for r in rows or []])
 
 
+# the rule for object names (MetaSpec.Name, format urlname), stated independently of pkg/v:
+# 1..253 characters out of letters, digits and - _ . ~   An entry whose name breaks the rule is
+# not a valid spec: applyConfig skips it, so for the model it is simply not in the snapshot.
+_NAME_OK = re.compile(r"[A-Za-z0-9\-_.~]{1,253}")
+
+
+def _valid_names(i):
+    tbl = i.get("namestr") or []
+    ok = set()
+    for n in range(int(i["names"])):
+        s = tbl[n] if n < len(tbl) and tbl[n] else "n%d" % n
+        if _NAME_OK.fullmatch(s):
+            ok.add(n)
+    return ok
+
+
+def _steps(i, cats):
+    ok = _valid_names(i)
+    return L([L([T(N(e[0]), _spec(cats, e[1], e[2])) for e in st or [] if e[0] in ok]) for st in i["steps"] or []])
+
+
 def _evrows(cats, rows):
     return L([T(N(r[0]), _n(r[1]), _spec(cats, r[2], r[3])) for r in rows or []])
 
 
 def _encode_join(c, cats):
     i, o = c["in"], c["obs"]
-    steps = L([L([T(N(e[0]), _spec(cats, e[1], e[2])) for e in st or []]) for st in i["steps"] or []])
+    steps = _steps(i, cats)
     return Rec(
         j_names=L([N(x) for x in range(int(i["names"]))]),
         j_steps=steps,
@@ -131,7 +154,7 @@ def encode(c):
     cats = {int(k): int(ct) for k, ct in i["kinds"]}
     if c["grp"] == "join":
         return _encode_join(c, cats)
-    steps = L([L([T(N(e[0]), _spec(cats, e[1], e[2])) for e in st or []]) for st in i["steps"] or []])
+    steps = _steps(i, cats)
     obs = []
     for so in o.get("steps") or []:
         obs.append(Rec(
@@ -141,7 +164,7 @@ def encode(c):
             so_gate=L([_inst(cats, r) for r in so.get("gate") or []]),
             so_pipe=L([_inst(cats, r) for r in so.get("pipe") or []])))
     return Rec(
-        k_grp=N({"sup": 0, "tc": 1, "apply": 2}[c["grp"]]),
+        k_grp=N({"sup": 0, "tc": 1, "apply": 2, "backlog": 0}[c["grp"]]),
         k_names=L([N(x) for x in range(int(i["names"]))]),
         k_steps=steps,
         k_pan=L([T(N(p[0]), N(p[1]), N(p[2])) for p in i.get("panics") or []]),
@@ -167,7 +190,11 @@ def distribution(cases):
     for c in cases:
         i, o = c["in"], c["obs"]
         d["groups"][c["grp"]] = d["groups"].get(c["grp"], 0) + 1
-        m = c["grp"] if c["grp"] in ("join", "apply") else ("direct" if i.get("mode", 0) == 0 and c["grp"] == "sup" else "e2e")
+        m = c["grp"] if c["grp"] in ("join", "apply", "backlog") else ("direct" if i.get("mode", 0) == 0 and c["grp"] == "sup" else "e2e")
+        if c["grp"] == "backlog":
+            d.setdefault("backlog", dict(handler_parked=0, applier_had_to_wait=0))
+            d["backlog"]["handler_parked"] += bool(o.get("parked"))
+            d["backlog"]["applier_had_to_wait"] += bool(o.get("stalled"))
         if c["grp"] == "join":
             d.setdefault("join", dict(parked=0, overlap_requested=0, snapshot_inside_window=0, traffic_filter=0))
             d["join"]["parked"] += bool(o.get("parked"))
@@ -201,9 +228,13 @@ def shrink_candidates(inp, grp):
             cand["panics"] = [[t - (t > k), op, n] for t, op, n in inp.get("panics") or [] if t != k]
             if grp == "join":
                 cand["join"] = int(inp.get("join", 0)) - (k < int(inp.get("join", 0)))
+            if inp.get("block"):
+                if k == inp["block"][0]:
+                    continue
+                cand["block"] = [inp["block"][0] - (k < inp["block"][0]), inp["block"][1]]
             yield cand
     for name in range(int(inp["names"])):
-        if any(e[0] == name for st in steps for e in st or []):
+        if any(e[0] == name for st in steps for e in st or []) and not (inp.get("block") and inp["block"][1] == name):
             cand = dict(inp)
             cand["steps"] = [[e for e in st or [] if e[0] != name] for st in steps]
             cand["panics"] = [p for p in inp.get("panics") or [] if p[2] != name]
